@@ -105,6 +105,8 @@ class LeanRLock(shims.RLock):
     def release(self):
         me = shims._me()
         if me is not None and self.owner is not me:
+            if shims.CUR is not None and shims.CUR.aborting:
+                return                              # tear-down unwinding a `with lock:` of a thread that was blocked in wait()
             raise RuntimeError("release of a lock the thread does not own")
         self.depth -= 1
         if self.depth <= 0:
@@ -711,4 +713,464 @@ def ser_replay(rec: Dict[str, Any]) -> int:
         print("SerializeTrace verdict: rejected at event", rejected[0][1], json.dumps(ser_witness(tr, rejected[0][1])))
     else:
         print("SerializeTrace verdict: accepted")
+    return 1 if rejected else 0
+
+
+# =====================================================================================================================
+# C32 - observe_on / ScheduledObserver (ScheduledObserver.tla, ScheduledObserverTrace.tla, ScheduledObserverImpl.tla)
+# =====================================================================================================================
+class LeanLock(shims.Lock):
+    """non-reentrant cooperative lock, switch point before acquire only (see LeanRLock)"""
+
+    def release(self):
+        me = shims._me()
+        if me is not None and self.owner is not me:
+            if shims.CUR is not None and shims.CUR.aborting:
+                return                              # tear-down unwinding a `with condition:` of a thread blocked in wait()
+            raise RuntimeError("release of a lock the thread does not own")
+        self.depth -= 1
+        if self.depth <= 0:
+            self.owner, self.depth = None, 0
+
+
+class _LoopNS(shims._ThreadingNS):
+    Lock = LeanLock
+    RLock = LeanRLock
+
+
+loop_ns = _LoopNS()
+FOCUS_C32 = ("reactivex/observer/scheduledobserver.py", "reactivex/observer/observeonobserver.py")
+_SO_RIG: Optional["SoRig"] = None
+_REC_CLASSES: Dict[str, Any] = {}
+
+
+class SoRig:
+    """event log of one C32 execution: calls on scheduled observers, deliveries at the user's callbacks"""
+
+    def __init__(self, ds: detsched.DetSched, raise_at: int):
+        self.ds = ds
+        self.raise_at = raise_at
+        self.n_so = 0
+        self.n_sink = 0
+        self.turn = 0
+
+    def th(self) -> int:
+        t = self.ds.me()
+        return th_index(t.name) if t else 0
+
+    def sp(self) -> None:
+        if self.ds.me() is not None:
+            self.ds.switch_point(True)
+
+    def log(self, **ev: Any) -> None:
+        ev["th"] = self.th()
+        self.ds.trace.append(ev)
+
+
+def rec_class(base_name: str):
+    """recording subclass of ObserveOnObserver / ScheduledObserver: logs call/ret around on_next / on_error / on_completed
+    (the boundary at which the scheduled observer RECEIVES a notification); nothing else is changed"""
+    cls = _REC_CLASSES.get(base_name)
+    if cls is not None:
+        return cls
+    if base_name == "ObserveOnObserver":
+        from reactivex.observer.observeonobserver import ObserveOnObserver as Base
+    else:
+        from reactivex.observer.scheduledobserver import ScheduledObserver as Base
+
+    class Rec(Base):
+        def __class_getitem__(cls, item):           # replaysubject.py writes cast(ScheduledObserver[_T], observer)
+            return cls
+
+        def __init__(self, *a, **k):
+            Base.__init__(self, *a, **k)
+            rig = _SO_RIG
+            self._so_id = rig.n_so
+            rig.n_so += 1
+
+        def _rec(self, k, v, fn, *args):
+            rig = _SO_RIG
+            rig.log(e="call", so=self._so_id, k=k, v=v)
+            try:
+                return fn(self, *args)
+            finally:
+                rig.log(e="ret", so=self._so_id)
+
+        def on_next(self, value):
+            return self._rec("N", value, Base.on_next, value)
+
+        def on_error(self, error):
+            return self._rec("E", 0, Base.on_error, error)
+
+        def on_completed(self):
+            return self._rec("C", 0, Base.on_completed)
+    Rec.__name__ = "Rec" + base_name
+    _REC_CLASSES[base_name] = Rec
+    return Rec
+
+
+class DelSink:
+    """the downstream observer of a scheduled observer: logs deliveries; its `raise_at`-th delivery raises"""
+
+    def __init__(self, rig: SoRig, sid: int):
+        self.rig, self.sid, self.n = rig, sid, 0
+
+    def _call(self, k: str, v: Any) -> None:
+        rig = self.rig
+        rig.sp()
+        rig.log(e="dstart", so=self.sid, k=k, v=v)
+        rig.sp()
+        self.n += 1
+        if self.sid == 0 and self.n == rig.raise_at:
+            rig.log(e="dend", so=self.sid, raised=True)
+            raise RuntimeError(f"downstream callback {self.n} raises")
+        rig.log(e="dend", so=self.sid, raised=False)
+
+    def on_next(self, v: Any) -> None:
+        self._call("N", v)
+
+    def on_error(self, e: Exception) -> None:
+        self._call("E", 0)
+
+    def on_completed(self) -> None:
+        self._call("C", 0)
+
+
+def so_patches() -> Dict[str, Dict[str, Any]]:
+    return {
+        "reactivex.observer.scheduledobserver": {"threading": lean_ns},
+        "reactivex.scheduler.eventloopscheduler": {"threading": loop_ns},
+        "reactivex.scheduler.timeoutscheduler": {"Timer": shims.Timer},
+        "reactivex.scheduler.scheduler": {"default_now": shims.now},
+        "reactivex.operators._observeon": {"ObserveOnObserver": rec_class("ObserveOnObserver")},
+        "reactivex.subject.replaysubject": {"ScheduledObserver": rec_class("ScheduledObserver"), "threading": None},
+        "reactivex.subject.subject": {"threading": quiet_ns},
+        "reactivex.subject.innersubscription": {"threading": quiet_ns},
+        "reactivex.observable.observable": {"threading": lean_ns},
+    }
+
+
+def _so_patch_table() -> Dict[str, Dict[str, Any]]:
+    t = so_patches()
+    t["reactivex.subject.replaysubject"].pop("threading")
+    return t
+
+
+def make_scheduler(kind: str):
+    from reactivex.scheduler import EventLoopScheduler, NewThreadScheduler, TimeoutScheduler
+
+    def factory(target):
+        return shims.Thread(target=target, daemon=True)
+    if kind == "eventloop":
+        return EventLoopScheduler(thread_factory=factory)
+    if kind == "eventloop_exit":
+        return EventLoopScheduler(thread_factory=factory, exit_if_empty=True)
+    if kind == "newthread":
+        return NewThreadScheduler(thread_factory=factory)
+    if kind == "timeout":
+        return TimeoutScheduler()
+    raise ValueError(kind)
+
+
+def so_build(sc: Dict[str, Any]):
+    """sc: kind 'observe_on' | 'observe_on_merge' | 'replay'; scripts (one per producer thread); sched; raise_at; order
+    (arrival order of the producers' calls - and for 'replay' of the late subscriber's subscribe, thread 2)"""
+    kind, scripts, order = sc["kind"], sc["scripts"], sc.get("order")
+
+    def build(ds: detsched.DetSched) -> None:
+        global _SO_RIG
+        import reactivex
+        from reactivex import operators as ops
+        from reactivex.subject import ReplaySubject, Subject
+        rig = SoRig(ds, sc.get("raise_at", 0))
+        _SO_RIG = rig
+        ds.rig = rig
+        loop = make_scheduler(sc.get("sched", "eventloop"))
+
+        def new_sink():
+            s = DelSink(rig, rig.n_sink)
+            rig.n_sink += 1
+            return s
+
+        def wait_turn(i):
+            if order is not None:
+                ds.block(lambda: rig.turn >= len(order) or order[rig.turn] == i, what="turn")
+                rig.turn += 1
+
+        def emit(subj, i, script):
+            n = 0
+            for tok in script:
+                wait_turn(i)
+                if tok == "N":
+                    n += 1
+                    subj.on_next(10 * i + n)
+                elif tok == "E":
+                    subj.on_error(RuntimeError(f"e{i}"))
+                else:
+                    subj.on_completed()
+
+        if kind == "observe_on":
+            s1 = Subject()
+            s1.pipe(ops.observe_on(loop)).subscribe(new_sink())
+            ds.spawn("T1", lambda: emit(s1, 1, scripts[0]))
+        elif kind == "observe_on_merge":
+            subs = [Subject() for _ in scripts]
+            reactivex.merge(*subs).pipe(ops.observe_on(loop)).subscribe(new_sink())
+            for i, script in enumerate(scripts, start=1):
+                ds.spawn(f"T{i}", lambda i=i, script=script: emit(subs[i - 1], i, script))
+        elif kind == "replay":
+            rs = ReplaySubject(scheduler=loop)
+            rs.subscribe(new_sink())                         # an early subscriber (scheduled observer 0)
+            ds.spawn("T1", lambda: emit(rs, 1, scripts[0]))
+
+            def late():
+                for tok in scripts[1]:                       # "U": subscribe one more observer
+                    wait_turn(2)
+                    rs.subscribe(new_sink())
+            ds.spawn("T2", late)
+        else:
+            raise ValueError(kind)
+    return build
+
+
+def so_traces(ds: detsched.DetSched) -> List[List[Dict[str, Any]]]:
+    """one trace per scheduled observer: its call/ret events, the deliveries of its sink, and the end marker"""
+    rig = ds.rig
+    end: List[Dict[str, Any]] = []
+    if ds.deadlocked:
+        end.append({"e": "deadlock", "th": 0})
+    elif ds.step_limit_hit:
+        end.append({"e": "steplimit", "th": 0})
+    else:
+        end.append({"e": "idle", "th": 0})
+    out = []
+    for k in range(max(rig.n_so, rig.n_sink)):
+        tr = [dict(e) for e in ds.trace if e.get("so") == k]
+        out.append(tr + end)
+    return out
+
+
+def so_explore(args) -> Dict[str, Any]:
+    sc, bound, max_sched, nrandom, seed, lines = args
+    traces: Dict[str, List[Any]] = {}
+    stats = {"executions": 0, "deadlocks": 0, "steplimit": 0, "unexpected_thread_exc": 0}
+    exc_samples: List[str] = []
+    build = so_build(sc)
+    focus = FOCUS_C32 + (("reactivex/subject/replaysubject.py",) if sc["kind"] == "replay" else ()) if lines else ()
+
+    def run_one(choose):
+        return _run_execution(build, choose, focus=focus, max_steps=6000)
+
+    with patched_for(_so_patch_table()):
+        ex = CostExplorer(bound=bound, max_schedules=max_sched, random_schedules=nrandom, seed=seed)
+        for ds in ex.explore(run_one):
+            stats["executions"] += 1
+            stats["deadlocks"] += int(ds.deadlocked)
+            stats["steplimit"] += int(ds.step_limit_hit)
+            for t in ds.threads:
+                if t.exc is not None and "downstream callback" not in repr(t.exc):
+                    stats["unexpected_thread_exc"] += 1
+                    if len(exc_samples) < 3:
+                        exc_samples.append(f"{t.name}: {t.exc!r}"[:300])
+            for so_id, tr in enumerate(so_traces(ds)):
+                key = json.dumps(tr, sort_keys=True)
+                if key not in traces:
+                    traces[key] = [tr, 0, [d[1] for d in ds.decisions], lines, so_id]
+                traces[key][1] += 1
+    return {"scenario": sc, "traces": list(traces.values()), "stats": stats, "truncated": ex.truncated,
+            "complete_bound": ex.complete_bound, "exc_samples": exc_samples}
+
+
+SO_TRACE_CONSTS = dict(Producers={0, 1, 2, 3}, LoopThreads=set(range(11, 31)), MaxCalls=0)
+SO_TRACE_INVS = ["TypeOK", "OneTerminal", "NothingAfterFault"]
+
+
+def so_witness(tr: List[Dict[str, Any]], upto: int) -> Dict[str, Any]:
+    if upto >= len(tr):
+        return {"failure": "unfinished"}
+    ev = tr[upto]
+    recv = [(e["k"], e["v"]) for e in tr[:upto] if e["e"] == "call"]
+    deliv = [(e["k"], e["v"]) for e in tr[:upto] if e["e"] == "dstart"]
+    open_del = sum(1 for e in tr[:upto] if e["e"] == "dstart") - sum(1 for e in tr[:upto] if e["e"] == "dend")
+    faulted = any(e["e"] == "dend" and e["raised"] for e in tr[:upto])
+    if ev["e"] == "idle":
+        f = "undelivered_while_idle"
+    elif ev["e"] == "dstart":
+        if open_del:
+            f = "overlapping_deliveries"
+        elif faulted:
+            f = "delivery_after_fault"
+        elif ev["th"] < 11:
+            f = "delivery_on_wrong_thread"
+        elif (ev["k"], ev["v"]) in deliv:
+            f = "delivered_twice"
+        else:
+            f = "out_of_order_or_not_received"
+    elif ev["e"] == "call":
+        f = "concurrent_calls_on_the_scheduled_observer"
+    else:
+        f = ev["e"]
+    return {"failure": f, "event": ev, "calls_so_far": recv, "deliveries_so_far": deliv}
+
+
+def so_scenarios(tier: str, seed: int) -> List[Dict[str, Any]]:
+    quick = tier == "quick"
+    out: List[Dict[str, Any]] = []
+
+    def add(kind, scripts, sched, raise_at, limit):
+        orders = arrival_orders(list(scripts), limit, seed) if len(scripts) > 1 else [None]
+        for order in orders:
+            out.append({"kind": kind, "scripts": [list(x) for x in scripts], "sched": sched, "raise_at": raise_at, "order": order})
+    if quick:
+        add("observe_on", ("NNC",), "eventloop", 0, 1)
+        add("observe_on", ("NNNE",), "eventloop", 0, 1)
+        add("observe_on", ("NNC",), "eventloop", 2, 1)
+        add("observe_on", ("NCN",), "eventloop_exit", 0, 1)
+        add("observe_on", ("NNC",), "newthread", 0, 1)
+        add("observe_on", ("NNC",), "timeout", 1, 1)
+        add("observe_on_merge", ("NC", "NE"), "eventloop", 0, 2)
+        add("replay", ("NNC", "U"), "eventloop", 0, 3)
+        add("replay", ("NNE", "U"), "newthread", 2, 2)
+    else:
+        for sched in ("eventloop", "eventloop_exit", "newthread", "timeout"):
+            for scr in ("C", "NC", "NNC", "NNNC", "NNNNC", "NNE", "NCN", "NEC", "NNN"):
+                for ra in (0, 1, 2, 3):
+                    if ra <= len(scr):
+                        add("observe_on", (scr,), sched, ra, 1)
+            for pr in (("NC", "NE"), ("NNC", "NC"), ("NE", "NNC")):
+                add("observe_on_merge", pr, sched, 0, 10)
+                add("observe_on_merge", pr, sched, 2, 4)
+            for pr in (("NNC", "U"), ("NNE", "U"), ("NNNC", "UU"), ("NN", "U")):
+                add("replay", pr, sched, 0, 10)
+                add("replay", pr, sched, 2, 4)
+    return out
+
+
+def so_design(ck, tier: str) -> None:
+    quick = tier == "quick"
+    # the abstract object: every interleaving of producers and loop threads
+    cfg = tlc.cfg_text(dict(Producers={1, 2}, LoopThreads={11, 12}, MaxCalls=3 if quick else 5), spec="Spec",
+                       invariants=["TypeOK", "Prefix", "OneTerminal", "NothingAfterFault"], properties=["FaultSticky", "Monotone"])
+    res = tlc.run("ScheduledObserver", cfg, workers=2, timeout=900, coverage=True, allow_violation=False)
+    need = ("GenCall", "Lin", "Ret", "GenStart", "DeliverEnd", "GenIdle")
+    never = [a for a in need if res.coverage.get(a, 0) == 0]
+    if never:
+        raise tlc.TLCFailure(f"vacuous ScheduledObserver design run: {never}")
+    ck.add_tlc(res, "design: abstract scheduled observer, all interleavings of producers and scheduler threads")
+    # the handshake as implemented (PlusCal), one event-loop thread and a two-thread pool
+    runs = [({1}, True, 3 if quick else 4)] + ([] if quick else [({1, 2}, False, 4)])
+    if quick:
+        runs.append(({1, 2}, False, 2))
+    for drains, dies, mx in runs:
+        cfg = tlc.cfg_text(dict(MaxNotes=mx, Drains=drains, LoopDies=dies, Bug="none"), spec="Spec",
+                           invariants=["Serial", "OrderOK", "NothingLeftBehind", "OneRunner", "LockOK"], properties=["EventuallyDelivered"])
+        res = tlc.run("ScheduledObserverImpl", cfg, workers=2, timeout=2400, coverage=True, allow_violation=False)
+        labels = ("p0", "pa", "pl", "pe", "ps", "pi", "d0", "dl", "dc", "dw", "de", "df", "dg", "dr")
+        never = [a for a in labels if res.coverage.get(a, 0) == 0]
+        if never:
+            raise tlc.TLCFailure(f"vacuous ScheduledObserverImpl run: labels never taken {never}")
+        ck.add_tlc(res, f"design: queue/is_acquired/has_faulted handshake as implemented (PlusCal), {len(drains)} scheduler thread(s), <= {mx} notifications, safety + liveness")
+    if not quick:
+        # negative control: the model without the is_acquired reset must break NothingLeftBehind
+        cfg = tlc.cfg_text(dict(MaxNotes=3, Drains={1}, LoopDies=True, Bug="keep_acquired"), spec="Spec", invariants=["NothingLeftBehind"])
+        res = tlc.run("ScheduledObserverImpl", cfg, workers=2, timeout=900)
+        ck.note("negative_control_keep_acquired_refuted", res.violated == "NothingLeftBehind")
+        if res.violated != "NothingLeftBehind":
+            raise tlc.TLCFailure("negative control of ScheduledObserverImpl was not refuted")
+
+
+def so_run(pid: str, tier: str, rule: str, assumptions: List[str]) -> int:
+    import time as _time
+    ck = core.Check(pid, tier)
+    ck.rule = rule
+    quick = tier == "quick"
+    bound = 2 if quick else 3
+    scs = so_scenarios(tier, ck.seed)
+    jobs = []
+    for sc in scs:
+        if quick:
+            jobs.append((sc, bound, 60, 1, ck.seed, True))
+        else:
+            jobs.append((sc, bound, 1200, 100, ck.seed, True))
+            jobs.append((sc, bound, 300, 30, ck.seed + 1, False))
+    t0 = _time.time()
+    pool, pending = _pool_map(so_explore, jobs, procs=8, timeout=0)
+    design: Dict[str, Any] = {}
+
+    def do_design():
+        try:
+            so_design(ck, tier)
+        except BaseException as e:  # noqa: BLE001
+            design["err"] = e
+    dthread = _real_threading.Thread(target=do_design)
+    dthread.start()
+    try:
+        results = pending.get(timeout=900 if quick else 10800)
+    finally:
+        pool.terminate()
+        pool.join()
+    t1 = _time.time()
+    total = 0
+    batch: List[Any] = []
+    complete: Dict[str, int] = {}
+    exc_samples: List[str] = []
+    for r in results:
+        total += r["stats"]["executions"]
+        for k in ("deadlocks", "steplimit", "unexpected_thread_exc"):
+            ck.count("conc_" + k, r["stats"][k])
+        complete[str(r["complete_bound"])] = complete.get(str(r["complete_bound"]), 0) + 1
+        exc_samples += r["exc_samples"]
+        for (tr, n, dec, lines, so_id) in r["traces"]:
+            batch.append((tr, r["scenario"], n, dec, lines, so_id))
+    if ck.extra.get("conc_steplimit"):
+        raise RuntimeError("step limit hit in a C32 execution (machinery)")
+    rejected, ress = tracecheck.validate("ScheduledObserverTrace", SO_TRACE_CONSTS, [b[0] for b in batch], invariants=SO_TRACE_INVS,
+                                         timeout=1800, chunk=4000)
+    for r in ress:
+        ck.add_tlc(r, f"trace validation ({len(batch)} distinct per-observer traces)")
+    for (idx, upto) in rejected:
+        tr, sc, n, dec, lines, so_id = batch[idx]
+        w = so_witness(tr, upto)
+        ck.fail({"engine": "scheduled_observer", "kind": sc["kind"], "sched": sc["sched"], "failure": w["failure"], "raise_at": sc["raise_at"],
+                 "scheduled_observer": so_id, "witness": w, "scenario": sc, "rejected_at": upto, "trace": tr, "schedules_with_this_trace": n,
+                 "decisions": dec, "line_switch_points": lines})
+    for want in ("observe_on", "replay"):
+        for b in batch:
+            if b[1]["kind"] == want and len(b[0]) >= 8:
+                ck.sample({"scenario": b[1], "scheduled_observer": b[5], "trace": b[0]})
+                break
+    ck.impl += total
+    ck.note("conc_executions", total)
+    ck.note("preemption_bound", bound)
+    ck.note("scenarios", len(scs))
+    ck.note("scenarios_by_largest_preemption_count_explored_completely", complete)
+    ck.note("distinct_traces", len(batch))
+    ck.note("unexpected_thread_exception_samples", exc_samples[:5])
+    ck.nontrivial = sum(1 for b in batch if any(e["e"] == "dstart" for e in b[0]))
+    dthread.join()
+    if "err" in design:
+        raise design["err"]
+    ck.note("phase_seconds", {"explore": round(t1 - t0, 1), "validate_judge_design": round(_time.time() - t1, 1)})
+    ck.exhaustive = False
+    ck.assumptions = assumptions
+    return ck.finish()
+
+
+def so_replay(rec: Dict[str, Any]) -> int:
+    sc = rec["scenario"]
+    print("scenario:", json.dumps(sc))
+    focus = FOCUS_C32 + (("reactivex/subject/replaysubject.py",) if sc["kind"] == "replay" else ()) if rec.get("line_switch_points", True) else ()
+    with patched_for(_so_patch_table()):
+        ds = _run_execution(so_build(sc), replay_choose(rec["decisions"]), focus=focus, max_steps=6000)
+    trs = so_traces(ds)
+    tr = trs[rec.get("scheduled_observer", 0)]
+    same = json.dumps(tr, sort_keys=True) == json.dumps(rec["trace"], sort_keys=True)
+    print("re-executed the recorded schedule on the real code:", "same trace" if same else "DIFFERENT trace")
+    for e in tr:
+        print("  ", json.dumps(e))
+    rejected, _ = tracecheck.validate("ScheduledObserverTrace", SO_TRACE_CONSTS, [tr], invariants=SO_TRACE_INVS)
+    if rejected:
+        print("ScheduledObserverTrace verdict: rejected at event", rejected[0][1], json.dumps(so_witness(tr, rejected[0][1]), default=str))
+    else:
+        print("ScheduledObserverTrace verdict: accepted")
     return 1 if rejected else 0
